@@ -17,7 +17,7 @@ the Spec (`Spec.checkData`: while a data frame is handled no other data frame is
 published type, source, destination ids and length; every live subscriber — to the type or to everything — that is ready
 (writable, or a logger), passes the destination filter and whose connection works gets exactly one copy; nobody else
 gets one) are stated over the Spec's own abstract table; the proof carries a simulation relation between that table and
-the model's tables (`Sim`, incl. "the subscription index lists a module under exactly the types of its `subs`") through
+the model's tables (`SimM`, incl. "the subscription index lists a module under exactly the types of its `subs`") through
 every round and uses `forward_copies` (the statement of `routing_exact` for the top-level forward).
 -/
 namespace Pyrtma.C01
@@ -154,7 +154,7 @@ the eligible subscribers the Spec's own bookkeeping expects, once, unmodified. -
 theorem spec_data_clause_passes_on_model (cfg : Cfg) (ok : CfgOK cfg) (hfuel : cfg.fuel = 0) (hperm : OrdPerm cfg)
     (hmt : cfg.mtClosed ≠ cfg.allTypes) (rs : List Round) (hwf : RoundsWF rs) :
     (Spec.runSpec cfg rs (Pyrtma.Drv.Manager.modelRun cfg rs).1 none).errs.filter (·.1 == "C01") = [] :=
-  spec_passes_on_model ok hfuel hperm hmt rs hwf "C01" (by simp [proven]) (fun h => absurd h (by decide))
+  spec_passes_on_model ok hfuel hperm hmt rs hwf "C01" (by simp [provenCore]) (fun h => absurd h (by decide))
 
 /-! ### Non-vacuity: a concrete three-module state, one subscribe-all logger, one addressed message -/
 
